@@ -102,6 +102,12 @@ def r8(ctx, rep):
                     site = f'`flag={cflag!r}` builds a mapping with the closure flag'
                 if site is None:
                     continue
+                # a mapping handed to a lookup (branch.has / find / search / all, node.meets) is a query, not a node
+                up = pmap.get(x)
+                while isinstance(up, (ast.BinOp, ast.Dict, ast.keyword)):
+                    up = pmap.get(up)
+                if isinstance(up, ast.Call) and isinstance(up.func, ast.Attribute) and up.func.attr in ('has', 'find', 'search', 'all', 'any', 'meets'):
+                    continue
                 n += 1
                 ok = (mod, qn) == (COMMON, 'Branch.close')
                 if not ok and mod == COMMON and qn.startswith('Branch._') and not qn.startswith('Branch.__'):
